@@ -534,7 +534,9 @@ class Run:
                 node.node_start()
                 self.count('node_starts')
                 fakes.reset_logs()
-                return self._after('env', 'node-start')
+                ok = self._after('env', 'node-start')
+                self.oracle.node_started()
+                return ok
             raise AssertionError(op)
         except drv.HandlerError as err:
             self._exception(err)
